@@ -168,8 +168,37 @@ def analyse(text):
                     seg = body[i:j + 1]
                     has_return = any(isinstance(x, (ast.Return, ast.Yield, ast.YieldFrom))
                                      for s_ in seg for x in ast.walk(s_))
+                    def _pure_stmt(st_):
+                        if not isinstance(st_, (ast.Assign, ast.AugAssign)):
+                            return False
+                        tg = st_.targets if isinstance(st_, ast.Assign) else [st_.target]
+                        if not all(isinstance(t_, ast.Name) for t_ in tg):
+                            return False
+                        for x in ast.walk(st_.value):
+                            if isinstance(x, (ast.NamedExpr, ast.Yield, ast.YieldFrom, ast.Await, ast.Lambda,
+                                              ast.ListComp, ast.SetComp, ast.DictComp, ast.GeneratorExp)):
+                                return False
+                            if isinstance(x, ast.Call) and (IMPURE_CALLEES.match(_callee_name(x)) or x.keywords):
+                                return False
+                        return True
+                    # a variable that the block reads before (re)binding it itself
+                    all_assigned = {t_.id for s_ in seg for t_ in ast.walk(s_)
+                                    if isinstance(t_, ast.Name) and isinstance(t_.ctx, ast.Store)}
+                    so_far, reads_own = set(), False
+                    for s_ in seg:
+                        val = getattr(s_, 'value', None)
+                        loads = {x.id for x in (ast.walk(val) if val is not None else ())
+                                 if isinstance(x, ast.Name)}
+                        if isinstance(s_, ast.AugAssign) and isinstance(s_.target, ast.Name):
+                            loads.add(s_.target.id)
+                        if (loads & all_assigned) - so_far:
+                            reads_own = True
+                        so_far |= {t_.id for t_ in ast.walk(s_)
+                                   if isinstance(t_, ast.Name) and isinstance(t_.ctx, ast.Store)}
                     stmts.append({'start': (a.lineno, a.col_offset), 'end': (b.end_lineno, b.end_col_offset),
                                   'flags': {'statements': j - i + 1, 'has_return_or_yield': has_return,
+                                            'reads_variable_it_rebinds': reads_own,
+                                            'pure_block': all(_pure_stmt(s_) for s_ in seg),
                                             'first': type(a).__name__,
                                             'contains_comprehension': any(
                                                 isinstance(x, (ast.ListComp, ast.SetComp, ast.DictComp,
